@@ -11,7 +11,7 @@ import json, os
 import vlib
 from pydec import sst_view
 
-UNIVERSE = ["Qa7x", "Qb7x", "Qc7x", "Qd7x"]
+UNIVERSE = ["Qa7x", "Qb7x", "Qc7x", "Qd7x", "Qe7x", "Qf7x", "Qg7x"]
 A, B, C = "Qa7x", "Qb7x", "Qc7x"
 
 
@@ -34,7 +34,46 @@ SCENARIOS = {
     # a lazily reopened workbook: sheet S1 edited (loaded), sheet S2 still raw; savers = it and a clone of it
     "lazy":     [([{"a": "Init"}, st(1, 1, A), st(1, 1, B, sh=2), {"a": "Save", "w": 1}, {"a": "Reload", "w": 1, "lazy": True},
                    st(2, 1, C), {"a": "Clone", "w": 2}, st(3, 2, "Qd7x")], [2, 3])],
+    # a lazily reopened workbook none of whose sheets is loaded: the same object twice, and it and a clone of it
+    "lazyraw":  [([{"a": "Init"}, st(1, 1, A), st(1, 1, B, sh=2), {"a": "Save", "w": 1}, {"a": "Reload", "w": 1, "lazy": True}],
+                  [2, 2]),
+                 ([{"a": "Init"}, st(1, 1, A), st(1, 1, B, sh=2), {"a": "Save", "w": 1}, {"a": "Reload", "w": 1, "lazy": True},
+                   {"a": "Clone", "w": 2}], [2, 3])],
 }
+
+
+def free_cases(chk, count):
+    """Free-running savers (no cooperative scheduler: real threads released together, several rounds) on workbooks
+    with many cells over few labels: interleavings below the granularity of the yield points.  Every file is judged
+    by the same predicates; there are no Step events."""
+    rng = chk.rng
+    cases = []
+    for k in range(count):
+        n = rng.choice([600, 1500, 3000])
+        labels = UNIVERSE[:rng.choice([2, 5, 7])]
+        kind = k % 4
+        if kind == 0:        # one object through shared references + a clone + an unrelated workbook, same labels
+            setup = [{"a": "Init"}, {"a": "Fill", "w": 1, "sh": 1, "n": n, "labels": labels, "off": 0},
+                     {"a": "Clone", "w": 1}, {"a": "Init"},
+                     {"a": "Fill", "w": 3, "sh": 1, "n": n, "labels": labels, "off": rng.randint(0, 6)}]
+            savers = [1, 1, 2, 3]
+        elif kind == 1:      # clones that diverged: same labels in another order, one with a second sheet
+            setup = [{"a": "Init"}, {"a": "Fill", "w": 1, "sh": 1, "n": n, "labels": labels, "off": 0},
+                     {"a": "Clone", "w": 1}, {"a": "Fill", "w": 2, "sh": 1, "n": n, "labels": labels, "off": 3},
+                     {"a": "Clone", "w": 1}, {"a": "Fill", "w": 3, "sh": 2, "n": n // 2, "labels": labels[::-1], "off": 1}]
+            savers = [1, 2, 3]
+        elif kind == 2:      # lazily reopened, nothing loaded: shared references and a clone
+            setup = [{"a": "Init"}, {"a": "Fill", "w": 1, "sh": 1, "n": n, "labels": labels, "off": 0},
+                     {"a": "Fill", "w": 1, "sh": 2, "n": n // 3, "labels": labels, "off": 2},
+                     {"a": "Save", "w": 1}, {"a": "Reload", "w": 1, "lazy": True}, {"a": "Clone", "w": 2}]
+            savers = [2, 2, 3]
+        else:                # lazily reopened, one sheet loaded by an edit; the original next to it
+            setup = [{"a": "Init"}, {"a": "Fill", "w": 1, "sh": 1, "n": n, "labels": labels, "off": 0},
+                     {"a": "Fill", "w": 1, "sh": 2, "n": n // 3, "labels": labels, "off": 2},
+                     {"a": "Save", "w": 1}, {"a": "Reload", "w": 1, "lazy": True}, st(2, 1, "Qd7x"), {"a": "Clone", "w": 2}]
+            savers = [1, 2, 2, 3]
+        cases.append({"scenario": "free", "steps": setup + [{"a": "FreeSave", "savers": savers, "rounds": rng.choice([2, 4])}]})
+    return cases
 
 
 def schedules(scenario, chk, simulate=None):
@@ -87,6 +126,9 @@ def gen_cases(chk):
                 cases.append({"scenario": sc, "steps": setup + [{"a": "ConcSave", "savers": savers, "schedule": s,
                                                                  "paths": names[:len(savers)]}]})
     chk.extra["schedules_per_scenario"] = counts
+    free = free_cases(chk, 8 if quick else 80)
+    chk.extra["free_running_cases"] = len(free)
+    cases += free
     for i, c in enumerate(cases):
         c["case"] = i
     return cases
@@ -137,7 +179,9 @@ def to_trace(case, evs):
 
 
 def describe(case, ev, detail):
-    return f"scenario {case.get('scenario')} schedule {case['steps'][-1]['schedule']}: {detail}"
+    last = case["steps"][-1]
+    how = f"schedule {last['schedule']}" if "schedule" in last else f"free-running savers {last['savers']} x {last.get('rounds')} rounds"
+    return f"scenario {case.get('scenario')} {how}: {detail}"
 
 
 def judge(chk, cases):
@@ -158,7 +202,7 @@ def judge(chk, cases):
 
 
 def run(chk):
-    for sc in ("equal", "disjoint", "overlap", "empty", "three", "lazy"):
+    for sc in ("equal", "disjoint", "overlap", "empty", "three", "lazy", "lazyraw"):
         vlib.tlc_mc("MC_ConcSave", f"MC_ConcSave_{sc}.cfg", workers=2, check=chk)
     dev = vlib.run_tlc("MC_ConcSave", "MC_ConcSave_deviant.cfg", workers=2, coverage=False)
     if dev.violation is None or "PartIffRel" not in dev.violation:
